@@ -22,6 +22,21 @@ Definition run_spine (cmd : string) (args : list string) : option string :=
       else Some (show_imp (import_token cat (fun c => c) recog h s))
     | _ => Some "err:args"
     end
+  else if String.eqb cmd "kern_history" then
+    (* one verdict of the real recogniser per cell ("T" = token, no syntax error; "N" = rejected), comma separated;
+       answers the outcome of each call on ONE importer whose listener policy is the regenerated flag *)
+    match args with
+    | [vs] =>
+      match kern_fresh_flag with
+      | None => Some "err:flag"
+      | Some fresh =>
+        let verdicts := split_char "," vs in
+        let recog := fun v : string => if String.eqb v "T" then (Some tt, 0) else (None, 1) in
+        Some ("ok:" ++ join "," (map (fun r => match r with RKept _ => "kept" | RErr _ => "raise" | RSimple _ _ => "simple" end)
+                                      (run_history unit recog fresh 0 verdicts)))
+      end
+    | _ => Some "err:args"
+    end
   else if String.eqb cmd "create_importer" then
     match args with
     | [h] => Some ("ok:" ++ create_importer h)
